@@ -510,6 +510,13 @@ def extract(repo):
     if not m:
         raise AnchorLost('shutdown monotone test')
     f['shutdown_skip_cmp'] = m.group(1)
+    # the guard `if let Some(err) = self.get_conn_error() { return Err(..) }` placed before the monotonicity test
+    g = re.search(r'if\s+let\s+Some\(err\)\s*=\s*self\.get_conn_error\(\)\s*\{\s*return\s+Err\(self\.handle_connection_error\(err\)\);\s*\}', body)
+    if g is None and 'get_conn_error' in body:
+        raise AnchorLost('shutdown connection-error guard')
+    f['shutdown_checks_conn_error'] = bool(g) and g.start() < m.start()
+    if g is not None and not f['shutdown_checks_conn_error']:
+        raise AnchorLost('shutdown connection-error guard position')
     body, spans['send_data'] = cn.fn_body('send_data')
     if not re.search(r'let\s+frame\s*=\s*Frame::Data\(buf\);\s*stream::write\(&mut\s+self\.stream,\s*frame\)', body):
         raise AnchorLost('RequestStream::send_data')
@@ -611,6 +618,8 @@ def render(f):
     L.append('Definition shutdown_frame_is_goaway : bool := %s.' % b(f['shutdown_frame'] == 'Goaway'))
     L.append('(* `if *sent_id CMP max_id { return Ok(()) }`: 0 "<=", 1 "<", 2 ">=", 3 ">" *)')
     L.append('Definition shutdown_skip_cmp : N := %d.' % {'<=': 0, '<': 1, '>=': 2, '>': 3}[f['shutdown_skip_cmp']])
+    L.append('(* ConnectionInner::shutdown starts with `if let Some(err) = self.get_conn_error() { return Err(..) }` *)')
+    L.append('Definition shutdown_checks_conn_error : bool := %s.' % b(f['shutdown_checks_conn_error']))
     for n, v in f['setting_ids']:
         L.append('Definition sid_%s : N := %d.' % (n, v))
     L.append('(* TryFrom<Config>: the inserts in source order: (setting id, config field) with field 0 max_field_section_size,')
